@@ -158,11 +158,11 @@ func (fr *Frame) evalCall(st *State, call *ast.CallExpr, nWant int) []*Term {
 		}
 		key := funcKey(fn)
 		recv, args := fr.evalRecvArgs(st, call, fn, sig)
-		if fc := e.cs.Funcs[key]; fc != nil && !(fr.top.fc == fc) {
+		if fc := e.cs.Funcs[key]; fc != nil && !(fr.top.fc == fc) && !(fc.Options["inline"] != "" && e.funcs[key] != nil) {
 			return fr.applyContract(st, fc, fn, sig, recv, args, call)
 		}
 		if fi := e.funcs[key]; fi != nil && !externalPkgs[pkgPath] {
-			if fc := e.cs.Funcs[key]; fc != nil {
+			if fc := e.cs.Funcs[key]; fc != nil && fc.Options["inline"] == "" {
 				// recursive call of the function under verification: use its contract
 				return fr.applyContract(st, fc, fn, sig, recv, args, call)
 			}
@@ -600,6 +600,11 @@ func (fr *Frame) evalSyncCall(st *State, call *ast.CallExpr, fn *types.Func) []*
 			}
 		}
 		st.addSnap(fmt.Sprintf("lock%d", st.nlock))
+		if fr.top.fc != nil {
+			for _, c := range fr.top.fc.Assumes[fmt.Sprintf("lock%d", st.nlock)] {
+				st.Assume(fr.top.evalSpecBool(st, c.Expr, nil, fr.top.entry))
+			}
+		}
 	case "Unlock", "RUnlock":
 		mode, held := st.locks[key]
 		want := "W"
@@ -634,6 +639,7 @@ func (e *Engine) protectedKeys(li *LockInv) map[string]*Sort {
 		return out
 	}
 	for _, it := range li.Protects {
+		it = strings.TrimSuffix(it, "~")
 		parts := strings.Split(it, ".")
 		if len(parts) != 2 {
 			continue
@@ -712,7 +718,7 @@ func (fr *Frame) guardedWrite(st *State, l *Loc, n ast.Node) {
 	}
 	key := fr.e.fieldKey(l.Owner, l.Field)
 	for _, li := range fr.e.cs.Locks {
-		if _, ok := fr.e.protectedKeys(li)[key]; !ok {
+		if _, ok := fr.e.protectedKeys(li)[key]; !ok || fr.e.weaklyProtected(li, key) {
 			continue
 		}
 		held := false
@@ -1105,4 +1111,17 @@ func (fr *Frame) bindBoxed(st *State, p *types.Var, val *Term) {
 	} else {
 		e.store(st, &Loc{Kind: LGlobal, Key: "box$" + p.Name() + fmt.Sprint(p.Pos()), T: p.Type()}, val)
 	}
+}
+
+// weaklyProtected: the key comes only from protects items marked `~` (re-read at Lock, but also written
+// under the read lock by design, e.g. the block map under Replica.RLock)
+func (e *Engine) weaklyProtected(li *LockInv, key string) bool {
+	strong := &LockInv{RecvName: li.RecvName, RecvType: li.RecvType, Mutex: li.Mutex, PkgPath: li.PkgPath}
+	for _, it := range li.Protects {
+		if !strings.HasSuffix(it, "~") {
+			strong.Protects = append(strong.Protects, it)
+		}
+	}
+	_, ok := e.protectedKeys(strong)[key]
+	return !ok
 }
